@@ -169,6 +169,92 @@ fn cmd_capi_init_child(args: &[String]) -> i32 {
     0
 }
 
+/// Validates the harness-side reference definitions (the trusted base of the Kani harnesses)
+/// against published vectors, against each other and against the real build. Run by setup.sh.
+fn cmd_refcheck() -> i32 {
+    use mzverif::refs::*;
+    let mut bad = 0;
+    macro_rules! check {
+        ($c:expr, $($m:tt)*) => { if !($c) { println!("REFCHECK-FAIL: {}", format!($($m)*)); bad += 1; } };
+    }
+    // 1. checksums: published vectors, then the real functions on pseudo-random data incl. NMAX boundaries
+    check!(adler32_ref(1, b"Wikipedia") == 0x11E60398, "adler32 vector");
+    check!(crc32_ref(0, b"123456789") == 0xCBF43926, "crc32 vector");
+    let mut x: u32 = 99;
+    let mut data = vec![0u8; 70000];
+    for b in data.iter_mut() {
+        x = x.wrapping_mul(1103515245).wrapping_add(12345);
+        *b = (x >> 16) as u8;
+    }
+    let ff = vec![0xFFu8; 70000];
+    for &n in &[0usize, 1, 2, 3, 4, 5, 15, 16, 17, 31, 32, 33, 63, 64, 65, 5551, 5552, 5553, 11104, 22208, 22209, 65535, 65536, 70000] {
+        for buf in [&data, &ff] {
+            check!(miniz_oxide::mz_adler32_oxide(1, &buf[..n]) == adler32_ref(1, &buf[..n]), "adler32 real vs ref n={}", n);
+            check!(miniz_oxide_c_api::mz_crc32_oxide(0, &buf[..n]) == crc32_ref(0, &buf[..n]), "crc32 real vs ref n={}", n);
+            let k = n / 3;
+            let s = miniz_oxide::mz_adler32_oxide(1, &buf[..k]);
+            check!(miniz_oxide::mz_adler32_oxide(s, &buf[k..n]) == adler32_ref(1, &buf[..n]), "adler32 split n={}", n);
+        }
+    }
+    // 2. RFC 1951 tables as printed in the RFC vs the closed forms used by the harnesses
+    const LB: [u32; 29] = [3, 4, 5, 6, 7, 8, 9, 10, 11, 13, 15, 17, 19, 23, 27, 31, 35, 43, 51, 59, 67, 83, 99, 115, 131, 163, 195, 227, 258];
+    const LE: [u32; 29] = [0, 0, 0, 0, 0, 0, 0, 0, 1, 1, 1, 1, 2, 2, 2, 2, 3, 3, 3, 3, 4, 4, 4, 4, 5, 5, 5, 5, 0];
+    const DB: [u32; 30] = [1, 2, 3, 4, 5, 7, 9, 13, 17, 25, 33, 49, 65, 97, 129, 193, 257, 385, 513, 769, 1025, 1537, 2049, 3073, 4097, 6145, 8193, 12289, 16385, 24577];
+    for i in 0..29 {
+        check!(rfc_length(i as u32) == (LB[i], LE[i]), "rfc_length {}", i);
+    }
+    for i in 0..30 {
+        let e = if i < 4 { 0 } else { (i as u32) / 2 - 1 };
+        check!(rfc_dist(i as u32) == (DB[i], e), "rfc_dist {}", i);
+    }
+    for len in 3..=258u32 {
+        check!(len_to_sym_closed(len) == rfc_len_to_sym(len), "len closed form {}", len);
+        let (s, e, x) = rfc_len_to_sym(len);
+        check!(s < 29 && LB[s as usize] + x == len && x < (1 << e).max(1), "len decomposition {}", len);
+    }
+    for d in 1..=32768u32 {
+        check!(dist_to_sym_closed(d) == rfc_dist_to_sym(d), "dist closed form {}", d);
+        let (s, e, x) = rfc_dist_to_sym(d);
+        check!(s < 30 && DB[s as usize] + x == d && x < (1 << e), "dist decomposition {}", d);
+    }
+    // 3. zlib header predicate
+    check!(rfc1950_header_ok(0x78, 0x9c) && rfc1950_header_ok(0x78, 0x01) && rfc1950_header_ok(0x08, 0x1d), "valid headers");
+    check!(!rfc1950_header_ok(0x78, 0x9d) && !rfc1950_header_ok(0x78, 0xbb) && !rfc1950_header_ok(0x88, 0x1c) && !rfc1950_header_ok(0x79, 0x18), "invalid headers");
+    // 4. independent inflater vs the repo's vector and vs the real compressor at every level
+    let hello = [120u8, 156, 243, 72, 205, 201, 201, 215, 81, 168, 202, 201, 76, 82, 4, 0, 27, 101, 4, 19];
+    match inflate(&hello, true) {
+        Ok(d) => check!(d.out == b"Hello, zlib!" && d.consumed == 20, "inflate_ref hello"),
+        Err(e) => check!(false, "inflate_ref hello: {:?}", e),
+    }
+    let input = probe_input();
+    for level in 0..=10u8 {
+        for zl in [false, true] {
+            let c = if zl { miniz_oxide::deflate::compress_to_vec_zlib(&input, level) } else { miniz_oxide::deflate::compress_to_vec(&input, level) };
+            match inflate(&c, zl) {
+                Ok(d) => check!(d.out == input && d.consumed == c.len() && d.final_blocks == 1, "inflate_ref roundtrip level {} zlib {}", level, zl),
+                Err(e) => check!(false, "inflate_ref rejects level {} zlib {}: {:?}", level, zl, e),
+            }
+        }
+    }
+    // 5. stored reference decoder + the level-0 size formula used by the C15 harness
+    for &n in &[0usize, 1, 2, 3, 16] {
+        let c = miniz_oxide::deflate::compress_to_vec_zlib(&data[..n], 0);
+        let d = stored_decode_ref(&c, true);
+        check!(d.ok && d.complete && d.n == n && d.consumed == c.len() && d.data[..n] == data[..n], "stored_decode_ref n={}", n);
+    }
+    for &n in &[0usize, 1, 31744, 31745, 31746, 63489, 63490, 63491, 69999] {
+        let c = miniz_oxide::deflate::compress_to_vec_zlib(&data[..n], 0);
+        check!(c.len() == n + 6 + 5 * (n / 31745 + 1), "level-0 zlib size formula n={} got {}", n, c.len());
+        check!(c.len() as u64 <= miniz_oxide_c_api::mz_deflateBound(std::ptr::null_mut(), n as _) as u64, "bound n={}", n);
+    }
+    if bad == 0 {
+        println!("refcheck: all reference definitions agree with published vectors and the real build");
+        0
+    } else {
+        1
+    }
+}
+
 fn main() {
     let args: Vec<String> = std::env::args().skip(1).collect();
     if args.is_empty() {
@@ -177,6 +263,7 @@ fn main() {
     }
     let rc = match args[0].as_str() {
         "route" => cmd_route(&args[1..]),
+        "refcheck" => cmd_refcheck(),
         "capi-init" => cmd_capi_init(&args[1..]),
         "capi-init-child" => cmd_capi_init_child(&args[1..]),
         _ => {
